@@ -97,6 +97,8 @@ type executor struct {
 	call   func(ctx context.Context, hash int, fn callee) (interface{}, error)
 	stop   func()
 	laneOf func(hash int) int
+	// waitStopped blocks until the executor reports that its lane goroutines are gone (WaitGroup / WaitStop)
+	waitStopped func()
 }
 
 type procFn func(ctx context.Context) (interface{}, error)
@@ -134,6 +136,7 @@ func newExecutor(kind string, slots, qsize int) *executor {
 			}, nil))
 		}
 		e.stop = l.Stop
+		e.waitStopped = wg.Wait
 	case KMLine:
 		ml := mline.NewMultiLine(pipe.WithSlotSize(slots), pipe.WithQSize(qsize))
 		ml.Run()
@@ -149,9 +152,12 @@ func newExecutor(kind string, slots, qsize int) *executor {
 			}, nil))
 		}
 		e.stop = ml.Stop
+		e.waitStopped = func() { _ = ml.WaitStop(context.Background()) }
 	case KRunCall, KRunDeleg, KRunProc:
-		r := pasync.NewRunnerQ(pasync.WithQSize(qsize), pasync.WithName("verif"))
+		rwg := &sync.WaitGroup{}
+		r := pasync.NewRunnerQ(pasync.WithQSize(qsize), pasync.WithName("verif"), pasync.WithWaitGroup(rwg))
 		r.Run()
+		e.waitStopped = func() { r.WaitStop(); rwg.Wait() }
 		switch kind {
 		case KRunCall:
 			e.call = func(ctx context.Context, _ int, fn callee) (interface{}, error) {
@@ -168,8 +174,10 @@ func newExecutor(kind string, slots, qsize int) *executor {
 		}
 		e.stop = r.Stop
 	case KProcChan:
-		p := pasync.NewProcChan(pasync.WithQSize(qsize), pasync.WithName("verif"))
+		pwg := &sync.WaitGroup{}
+		p := pasync.NewProcChan(pasync.WithQSize(qsize), pasync.WithName("verif"), pasync.WithWaitGroup(pwg))
 		p.Run()
+		e.waitStopped = func() { p.WaitStop(); pwg.Wait() }
 		e.call = func(ctx context.Context, _ int, fn callee) (interface{}, error) {
 			return p.AsyncProc(ctx, procFn(wrap(fn)))
 		}
@@ -653,6 +661,14 @@ func ExecCtl(c CaseCtl) *vkit.Result {
 	}
 	if len(parked) > 0 {
 		return res.Failf("goroutine-left", "epilogue: goroutines of the case are still parked after Stop and drain: %+v", parked)
+	}
+	// the executor's own notion of "stopped" (wait group / WaitStop) must agree: the waiter returns
+	if ex.waitStopped != nil {
+		w := sched.Go("wait-stopped", ex.waitStopped)
+		sched.MustQuiesce()
+		if !w.Done() {
+			return res.Failf("wait-stop-never-returns", "epilogue: every lane goroutine is gone, but waiting for the executor to stop (wait group / WaitStop) blocks forever")
+		}
 	}
 	// the lane goroutines themselves (started before the baseline): none may survive
 	if n := laneGoroutines(); n > 0 {
